@@ -237,6 +237,128 @@ def gen_ackt(rng, tier):
     reqs = retag(rng, [r for _, r in steps])
     yield 'ackt %d %s %s' % (OWN, strs, '/'.join('%d:%s' % (dt, r) for (dt, _), r in zip(steps, reqs)))
 
+# ---- field-wise payloads from the PID store descriptors (/repo/data/rdm/*.proto, text format)
+def _parse_textproto(text):
+    root, stack = {}, []
+    cur = root
+    for raw in text.split('\n'):
+        line = raw.strip()
+        if not line or line.startswith('#'):
+            continue
+        if line.endswith('{'):
+            key = line[:-1].strip()
+            node = {}
+            cur.setdefault(key, []).append(node)
+            stack.append(cur)
+            cur = node
+        elif line == '}':
+            cur = stack.pop()
+        elif ':' in line:
+            k, v = line.split(':', 1)
+            cur.setdefault(k.strip(), []).append(v.strip().strip('"'))
+    return root
+
+_DESCS = {}
+def pid_descriptors():
+    """pid value -> {'get': [fields], 'set': [fields]} for every PID described in the PID store"""
+    if _DESCS:
+        return _DESCS
+    for fn in ('pids.proto', 'draft_pids.proto', 'manufacturer_pids.proto'):
+        try:
+            root = _parse_textproto(open(_repo_file('data/rdm/' + fn)).read())
+        except IOError:
+            continue
+        pids = list(root.get('pid', []))
+        for m in root.get('manufacturer', []):
+            if m.get('manufacturer_id', ['0'])[0] == str(0x7a70):
+                pids += m.get('pid', [])
+        for pd in pids:
+            try:
+                v = int(pd['value'][0])
+            except (KeyError, ValueError):
+                continue
+            _DESCS.setdefault(v, {'get': (pd.get('get_request') or [{}])[0].get('field', []),
+                                  'set': (pd.get('set_request') or [{}])[0].get('field', [])})
+    return _DESCS
+
+_W = {'BOOL': 1, 'UINT8': 1, 'INT8': 1, 'UINT16': 2, 'INT16': 2, 'UINT32': 4, 'INT32': 4, 'IPV4': 4, 'MAC': 6, 'UID': 6}
+_BOUND = {1: [0, 1, 2, 3, 4, 5, 6, 7, 127, 128, 254, 255],
+          2: [0, 1, 2, 5, 6, 7, 9, 10, 11, 254, 255, 256, 1199, 1200, 1201, 0x7ffe, 0x7fff, 0x8000, 35999, 36000, 36001,
+              0xfeff, 0xff00, 0xff01, 0xfffe, 0xffff],
+          4: [0, 1, 2, 255, 256, 65535, 65536, (1 << 31) - 1, 1 << 31, (1 << 32) - 2, (1 << 32) - 1],
+          6: [0, 1, (1 << 48) - 1]}
+
+def _flatten(fields):
+    """leaf fields of a request (one repetition of every group); strings become (None, sizes)"""
+    out = []
+    for f in fields:
+        t = f.get('type', ['?'])[0]
+        if t == 'GROUP':
+            out += _flatten(f.get('field', []))
+        elif t == 'STRING':
+            mx = int(f.get('max_size', ['32'])[0])
+            mn = int(f.get('min_size', ['0'])[0])
+            out.append(('S', sorted({mn, max(0, mn - 1), 1, 2, 3, mx - 1, mx, mx + 1}), []))
+        elif t in _W:
+            w = _W[t]
+            vals = set(_BOUND[w])
+            for r in f.get('range', []):
+                for k in ('min', 'max'):
+                    if k in r:
+                        x = int(r[k][0])
+                        vals.update([x - 1, x, x + 1])
+            for l in f.get('label', []):
+                if 'value' in l:
+                    x = int(l['value'][0])
+                    vals.update([x - 1, x, x + 1])
+            out.append((w, sorted(v & ((1 << (8 * w)) - 1) for v in vals), []))
+    return out
+
+def _enc(leaves, vals, rng):
+    bs = []
+    for (w, _, _), v in zip(leaves, vals):
+        if w == 'S':
+            bs += [rng.choice([0x61, 0x64, 0x65, 0x66, 0x6e, 0x72, 0x41, 0x20]) for _ in range(v)]
+        else:
+            bs += list(int(v).to_bytes(w, 'big'))
+    return bs[:231]
+
+def gen_fields(rng, tier):
+    """every described GET/SET of every supported PID: each field in turn at its boundary values (descriptor
+    ranges/labels +-1 and generic width boundaries) while the other fields hold plausible valid values, so a
+    handler that stores field by field and NACKs later is caught by the snapshot pair"""
+    quick = tier == 'quick'
+    descs = pid_descriptors()
+    sup = supported_pids()
+    for kind in sorted(KINDS):
+        if kind in ('dimmer0', 'dimmer1', 'dimmer8'):
+            continue
+        reqs = []
+        for pid in sup[kind]:
+            d = descs.get(pid)
+            if not d:
+                continue
+            for cc, key in ((SET, 'set'), (GET, 'get')):
+                leaves = _flatten(d[key])
+                if not leaves:
+                    continue
+                bases = [[(1 if w != 'S' else 2) for (w, _, _) in leaves],
+                         [(2 if w != 'S' else 3) for (w, _, _) in leaves],
+                         [(rng.choice([0, 1, 3, 4, 5]) if w != 'S' else rng.choice([0, 2, 5])) for (w, _, _) in leaves]]
+                if not quick:
+                    bases += [[(rng.choice([0, 1, 2, 3, 4, 5, 10, 20]) if w != 'S' else 4) for (w, _, _) in leaves] for _ in range(3)]
+                for base in bases:
+                    for i, (w, vals, _) in enumerate(leaves):
+                        vs = vals if (not quick or len(vals) <= 14) else rng.sample(vals, 14)
+                        for v in vs:
+                            cur = list(base)
+                            cur[i] = v
+                            sub = rng.choice([0, 0, 0, 1, 2]) if kind.startswith('dimmer') else 0
+                            reqs.append(req(OWN, sub, cc, pid, _enc(leaves, cur, rng)))
+        rng.shuffle(reqs)
+        for ch in chunks(reqs, 48):
+            yield seq_case(rng, kind, ch)
+
 def chunks(l, n):
     for i in range(0, len(l), n):
         yield l[i:i + n]
@@ -406,7 +528,7 @@ def gen_help(rng, tier):
             yield 'help 23 %s %d -' % (R(rdata(rng, n, False)), rng.choice(mcs))
 
 def gen_cases(rng, tier):
-    for g in (gen_disp, gen_fan, gen_help, gen_ackt, gen_acktimer, gen_block, gen_sweeps):
+    for g in (gen_disp, gen_fan, gen_help, gen_ackt, gen_acktimer, gen_block, gen_fields, gen_sweeps):
         for c in g(rng, tier):
             yield c
 
@@ -432,7 +554,7 @@ RULE = ('disp: scripted handler table on the real ResponderOps x PID {placeholde
         'and the value boundaries of each comparison; sweep: every built-in responder, all supported PIDs + neighbours/boundary '
         'PIDs (thorough: all 65536) x class x sub-device x destination x parameter lengths, in sequences of 40-512 requests with a '
         'snapshot of all GET-able parameters around every SET, every reply judged by the extracted chk_sweep, transaction number '
-        'and controller UID different on neighbouring requests; ackt: ack-timer histories with explicit clock steps around 400 ms '
+        'and controller UID different on neighbouring requests; fields: for every GET/SET described in the PID store (/repo/data/rdm) each field in turn at its descriptor range/label values +-1 and the generic width boundaries with the other fields valid; block: DMX_BLOCK_ADDRESS after per-sub-device changes on dimmers with 0/1/2/4/8 sub-devices; ackt: ack-timer histories with explicit clock steps around 400 ms '
         '(SET->ACK_TIMER, queued-message delivery, STATUS_GET_LAST_MESSAGE, >255 queued), full replies compared with AckTimer.v. '
         'non-trivial = helper ACK / one completion carrying a response / a fully conformant sequence containing GETs and SETs; '
         'distinct = distinct model output line')
